@@ -16,11 +16,18 @@
     exactly one reference in the accounting table ([AccDefs.fr]) until it reaches the caller's handle;
     the count equation holds in every state ([C04_accounting]) and the value in the returned handle
     is alive ([C04_returned_value_alive]).
+
+    RUN LEVEL ([ASModel.LinSwap], all schedules within [Main.RunOK]): [C04_swap_linearizable] - a completed
+    swap(new = b) did EXACTLY ONE write to the container, that write stored b, and the call hands back
+    exactly the value that write replaced; [C04_store_linearizable] - the same for store, whose last
+    step is the release of exactly that value; with [one_write_chain] every such write is a link of the
+    container's single chain, so each replaced value is taken out by exactly one call.
 *)
 From ASModel Require Import Base State Orderings_gen Step Run Progress Hist.
 From Seq Require Import HB.
 From ASModel Require Import Inv InvTl InvProto InvStep Sum StepCases GenDefs Gen1 Gen2 Gen EnvDefs Env4 Env AccDefs Acc1 Acc2 Acc3 Acc4 Acc5 Acc6 Acc7 Acc.
 From ASModel Require Import ProtDefs Prot1 Prot11 Prot16 Prot Typed LinDefs Lin2 Lin Safe1 Safe2 Safe7 Safe8 Safe Main.
+From ASModel Require Import LinCas5 LinCas LinSwap1 LinSwap2 LinSwap3 LinSwap4 LinSwap LinSwapMain.
 
 Theorem C04_only_rmw_writes :
   forall cf s t x c,
@@ -99,6 +106,38 @@ Theorem C04_returned_value_alive : forall s h a,
   heap (sh s) a <> None.
 Proof. exact Main.C10_guard_keeps_value. Qed.
 
+Theorem C04_swap_linearizable : forall cf inits progs sched t i c v h2 b pa pb xa tb xb,
+  let s0 := init_state inits progs in
+  let St := fun k => run_state cf s0 (firstn k sched) in
+  RunOK cf inits progs sched ->
+  (forall p, In p progs -> forall g, ~ In (CSetGen g) p) ->
+  nth_error (t_prog (thr s0 t)) (N.to_nat i) = Some (CSwap c v h2) ->
+  (pa <= pb)%nat ->
+  nth_error sched pa = Some (t, xa) ->
+  t_status (thr (St pa) t) = Running -> t_stack (thr (St pa) t) = [] -> t_cmdi (thr (St pa) t) = i ->
+  cmd_enabled (St pa) (CSwap c v h2) = true ->
+  src_val (St pa) v = Some b ->
+  nth_error sched pb = Some (tb, xb) ->
+  t_cmdi (thr (St pb) t) = i -> t_cmdi (thr (St (S pb)) t) = i + 1 ->
+  exists old j, hnd (St (S pb)) h2 = HOwned old /\ one_write cf s0 sched t c old b pa pb j.
+Proof. exact swap_linearizable_runok. Qed.
+
+Theorem C04_store_linearizable : forall cf inits progs sched t i c v b pa pb xa tb xb,
+  let s0 := init_state inits progs in
+  let St := fun k => run_state cf s0 (firstn k sched) in
+  RunOK cf inits progs sched ->
+  (forall p, In p progs -> forall g, ~ In (CSetGen g) p) ->
+  nth_error (t_prog (thr s0 t)) (N.to_nat i) = Some (CStore c v) ->
+  (pa <= pb)%nat ->
+  nth_error sched pa = Some (t, xa) ->
+  t_status (thr (St pa) t) = Running -> t_stack (thr (St pa) t) = [] -> t_cmdi (thr (St pa) t) = i ->
+  cmd_enabled (St pa) (CStore c v) = true ->
+  src_val (St pa) v = Some b ->
+  nth_error sched pb = Some (tb, xb) ->
+  t_cmdi (thr (St pb) t) = i -> t_cmdi (thr (St (S pb)) t) = i + 1 ->
+  tb = t /\ exists old j, one_write cf s0 sched t c old b pa pb j /\ released_once cf s0 sched t old pa pb j xb.
+Proof. exact store_linearizable_runok. Qed.
+
 Print Assumptions C04_only_rmw_writes.
 Print Assumptions C04_writes_form_chain.
 Print Assumptions C04_swap_hands_back_replaced.
@@ -109,3 +148,5 @@ Print Assumptions C04_handover_swap_cas.
 Print Assumptions C04_handover_cas_cas.
 Print Assumptions C04_accounting.
 Print Assumptions C04_returned_value_alive.
+Print Assumptions C04_swap_linearizable.
+Print Assumptions C04_store_linearizable.
